@@ -670,6 +670,29 @@ func (sl *slicer) visitContributors(o ssa.Value, except ssa.Instruction, ctx *fr
 		return
 	}
 	for _, r := range *refs {
+		// the object converted to another interface, or placed in a variadic
+		// argument list, is still the same object
+		switch x := r.(type) {
+		case *ssa.ChangeInterface:
+			sl.visitContributors(x, except, ctx, depth)
+			continue
+		case *ssa.MakeInterface:
+			sl.visitContributors(x, except, ctx, depth)
+			continue
+		case *ssa.Store:
+			if x.Val == o {
+				if ia, ok := x.Addr.(*ssa.IndexAddr); ok {
+					if arr, ok := ia.X.(*ssa.Alloc); ok {
+						for _, ar := range *arr.Referrers() {
+							if ss, ok := ar.(*ssa.Slice); ok {
+								sl.visitContributorCalls(ss, o, except, ctx, depth)
+							}
+						}
+					}
+				}
+			}
+			continue
+		}
 		ci, ok := r.(ssa.CallInstruction)
 		if !ok || r == except {
 			continue
@@ -697,6 +720,33 @@ func (sl *slicer) visitContributors(o ssa.Value, except ssa.Instruction, ctx *fr
 		sl.s.leaf("feeds:"+sl.s.p.CalleeName(ci), nil)
 		for _, a := range Args(ci) {
 			if a != o {
+				sl.visit(a, ctx)
+			}
+		}
+		if v, ok := ci.(*ssa.Call); ok && v.Type() != nil {
+			if _, isTuple := v.Type().(*types.Tuple); !isTuple {
+				sl.visitContributors(v, ci, ctx, depth+1)
+			}
+		}
+	}
+}
+
+// visitContributorCalls handles calls that receive the object inside a
+// variadic slice (io.MultiWriter(f, hasher)).
+func (sl *slicer) visitContributorCalls(vs *ssa.Slice, o ssa.Value, except ssa.Instruction, ctx *frame, depth int) {
+	refs := vs.Referrers()
+	if refs == nil {
+		return
+	}
+	for _, r := range *refs {
+		ci, ok := r.(ssa.CallInstruction)
+		if !ok || r == except || sl.s.Calls[ci] {
+			continue
+		}
+		sl.s.Calls[ci] = true
+		sl.s.leaf("feeds:"+sl.s.p.CalleeName(ci), nil)
+		for _, a := range Args(ci) {
+			if a != ssa.Value(vs) {
 				sl.visit(a, ctx)
 			}
 		}
